@@ -338,7 +338,7 @@ def discharge(obl: Obligation, timeout_ms=30000):
     for b in (1, 2, 3):
         extra = [z3.And(v >= -b, v <= b) for v in ints]
         # (z3 budgets are wall-clock: under a fully loaded machine 4 s for the widest box turned refutations into time-outs)
-        r2, s2 = _check(obl, min(timeout_ms, 4000 if b < 3 else 12000), extra, fresh=True)
+        r2, s2 = _check(obl, min(timeout_ms, 4000 * b), extra, fresh=True)
         if r2 == z3.sat:
             return "refuted", ms(), {"model": _model_dict(s2.model()),
                                      "solver_output": f"sat (bounded counter-model search: all integer constants within [-{b}, {b}])"}
